@@ -24,7 +24,7 @@ FUNCS = ['generate_sub_two_numbers', 'add_sub_two_numbers', 'add_sub2', 'add_sub
          'add_pairwise_if_then_else', 'generate_pairwise_xor', 'add_pairwise_xor']
 REQUIRED = {('mon:%s.checked' % f): (3 if f.startswith('generate_') else 8) for f in FUNCS}
 REQUIRED.update({'host:internal': 40, 'endian:big': 40, 'opt:add_outputs=True': 20, 'opt:add_outputs=False': 20,
-                 'opt:result_labels': 20, 'unequal_widths': 20, 'equal:does_not_fit': 5, 'divmod:zero_divisor_possible': 5})
+                 'opt:result_labels': 20, 'unequal_widths': 20, 'equal:does_not_fit': 5, 'divmod:zero_divisor_possible': 5, 'skewed_widths': 10})
 
 SUB = 'cirbo.synthesis.generation.arithmetics.subtraction'
 DIV = 'cirbo.synthesis.generation.arithmetics.div_mod'
@@ -37,6 +37,7 @@ def shards(tier, seed):
     per = 300 if tier == 'quick' else 20000
     budget = 50 if tier == 'quick' else 560
     out = [{'kind': 'random', 'count': per, 'budget_s': budget, 'maxw': 6 if tier == 'quick' else 10} for _ in range(13)]
+    out.append({'kind': 'skewed', 'budget_s': budget, 'wide': [9, 12, 17] if tier == 'quick' else [8, 9, 12, 16, 17, 24, 33]})
     out.append({'kind': 'generate', 'widths': [1, 2, 3], 'budget_s': budget})
     out.append({'kind': 'generate', 'widths': [4, 5], 'budget_s': budget})
     out.append({'kind': 'generate', 'widths': [6] if tier == 'quick' else [6, 7, 8, 12, 16, 24], 'budget_s': budget})
@@ -352,6 +353,9 @@ def run_call(case, ctx):
                 c = netgen.build(host)
             ctx.count('host:' + case['mode'])
             ops = case['operands']
+            if case.get('same_list_object'):
+                ops = [ops[0], ops[0]]   # the very same list object for both operands
+                ctx.count('same_list_object')
             nontrivial = case['mode'] in ('internal', 'mixed', 'repeated') or any(len(o) >= 2 for o in ops)
             if len(ops) >= 2 and len(ops[0]) != len(ops[1]):
                 ctx.count('unequal_widths')
@@ -443,12 +447,34 @@ def gen_add_case(rng, maxw):
         case['add_outputs'] = rng.random() < 0.5
         if rng.random() < 0.5:
             case['result_labels'] = ['px%d_%d' % (i, rng.randrange(1000)) for i in range(w)]
+    if rng.random() < 0.5:
+        case['host'] = netgen.describe(A.add_operand_users(host, case['operands'], rng))
+    if len(case['operands']) == 2 and len(case['operands'][0]) == len(case['operands'][1]) and rng.random() < 0.15:
+        case['operands'][1] = list(case['operands'][0])
+        case['same_list_object'] = True
     return case
 
 
 def run_shard(spec, ctx):
     install(ctx)
     rng = ctx.rng
+    if spec['kind'] == 'skewed':
+        # very unequal widths, systematically (both orders, both endiannesses)
+        from cirbo.core.circuit import Circuit
+        for narrow in (1, 2, 3):
+            for wide in spec['wide']:
+                for n, m in ((narrow, wide), (wide, narrow)):
+                    for be in (False, True):
+                        if ctx.out_of_time():
+                            ctx.note_inconclusive('skewed-width grid not finished within the budget')
+                            return
+                        run_call({'kind': 'generate', 'func': 'generate_sub_two_numbers', 'args': [n, m], 'big_endian': be}, ctx)
+                        host = netgen.rand_net(rng, n_in=n + m, n_g=0, n_out=0)
+                        ins = list(host.inputs)
+                        run_call({'kind': 'add', 'func': 'add_subtract_with_compare', 'host': netgen.describe(host), 'mode': 'inputs',
+                                  'operands': [ins[:n], ins[n:]], 'big_endian': be, 'rseed': rng.getrandbits(32)}, ctx)
+                        ctx.count('skewed_widths')
+        return
     if spec['kind'] == 'generate':
         for w in spec['widths']:
             for be in (False, True):
